@@ -9,7 +9,7 @@ PROP = dict(
         "statime_base::time_types::{Timestamp<TAI>,Duration} operator impls and constructors",
     ],
     bounds="all 64-bit timestamps and durations for add/sub/neg/abs/wire formats/conversion from seconds (all finite f64); scaling: every 64-bit duration x a list of constant scalars per scalar type (0, +-1, 2, MIN, MAX, and non-powers-of-two in the thorough tier) plus symbolic 8-bit scalar x 12..20-bit duration against a shift-add reference; all 128-bit PTP values for add/sub/timestamp laws; PTP scaling: |d| < 2^110 or d in {MIN,MAX} x all i8/u8/i16/u16 scalars. Code is loop-free: no unwinding bound involved.",
-    outside="symbolic-by-symbolic 64-bit scaling against an independent reference (multiplier/divider equivalence does not terminate: measured 145 s for one query, >10 min overall); to_seconds()->from_seconds() round-trip error bound (f64 division by 2^32-1); PTP scaling by 32/64-bit scalars; division by zero (documented precondition); Debug formatting",
+    outside="symbolic-by-symbolic 64-bit scaling against an independent reference (multiplier/divider equivalence does not terminate: measured 145 s for one query, >10 min overall); PTP scaling by 32/64-bit scalars; division by zero (documented precondition); Debug formatting",
     assumptions=["nanos < 1e9 for the seconds/nanos constructors (documented precondition, debug_assert in the code)", "divisor != 0",
                  "reference for saturating scaling uses std checked_mul/checked_div (same circuit on both sides), so the solver decides the repo's saturation/cast/sign logic, not CBMC's multiplier"],
     harnesses=[
@@ -27,6 +27,8 @@ PROP = dict(
         H(NP, "c32", "c32_dur_freq_tolerance", "duration * FrequencyTolerance (ppm in {0,15,1e6})", tier="thorough", timeout_thorough=2400),
         H(NP, "c32", "c32_from_seconds_sign_saturation", "from_seconds preserves sign and saturates for all finite f64"),
         H(NP, "c32", "c32_from_seconds_monotone_units", "from_seconds keeps integer seconds exact"),
+        H(NP, "c32", "c32_roundtrip_small", "from_seconds(to_seconds(d)) within 1 ppb + 1 unit, |d| < 2^33 units"),
+        H(NP, "c32", "c32_roundtrip_full", "from_seconds(to_seconds(d)) within 1 ppb + 1 unit, all 64-bit durations"),
         H(NP, "c32", "c32_wire_short_time32", "short and time32 wire encodings round-trip within one unit, saturate"),
         H(NP, "c32", "c32_dur_misc", "as_seconds_nanos, from_exponent, log2, poll interval duration"),
         H(NP, "c32", "c32_ptp_ts", "PTP timestamp wrap laws (128-bit)"),
